@@ -131,9 +131,9 @@ Print Assumptions C17_lane_push_retains_before_publish_partial.
 
 (* PARTIAL (lane / object reference sites): the presence and position of the refcount operations the +2 protocol
    and the target-queue references rely on, read from the source:
-   - the number of refcount releases / retains reachable from _dispatch_queue_invoke_finish (the release of the +2 on its
-     non-re-enqueueing exit, those of the barrier-waiter hand-off and of the nested wakeups) is pinned: dropping or adding one
-     breaks this statement;
+   - the refcount releases / retains reachable from _dispatch_queue_invoke_finish are pinned (weak: the translator lists the
+     sites of an inlined callee once per callee, so dropping ONE of several calls of _dispatch_release_2 is not visible
+     here; the interrupted-drain histories of the differential harness (op Q) detect exactly that);
    - _dispatch_lane_suspend ends by taking its +2 (relaxed add) after the state transition;
    - _dispatch_dispose releases the target queue (its only refcount site: release, after the finalizer was submitted);
    - dispatch_set_target_queue (objects other than queues): the new target is retained BEFORE the exchange that publishes
